@@ -76,13 +76,27 @@ Maps == { VMap(CanonMap(kv)) : kv \in {
 \* maps whose keys are distinct in Erlang but numerically equal (C03)
 NumKeyMaps == { VMap(CanonMap(<< <<SmallInt(1), A(<<97>>)>>, <<VFloat(<<63,240,0,0,0,0,0,0>>), A(<<98>>)>> >>)),
                 VMap(CanonMap(<< <<Zero, A(<<97>>)>>, <<VFloat(<<0,0,0,0,0,0,0,0>>), A(<<98>>)>>, <<VFloat(<<128,0,0,0,0,0,0,0>>), A(<<99>>)>> >>)) }
+\* maps whose keys are different numbers that a comparison through floating point would take for equal (an integer next to the float it
+\* rounds to): both entries must survive
+NearKeyMaps == { VMap(CanonMap(<< <<VInt(FALSE, <<1,0,0,0,0,0,32>>), A(<<97>>)>>, <<VFloat(<<67,64,0,0,0,0,0,0>>), A(<<98>>)>> >>)),
+                 VMap(CanonMap(<< <<VInt(TRUE, <<1,0,0,0,0,0,32>>), A(<<97>>)>>, <<VFloat(<<195,64,0,0,0,0,0,0>>), A(<<98>>)>> >>)),
+                 VMap(CanonMap(<< <<VInt(FALSE, <<2,0,0,0,0,0,32>>), A(<<97>>)>>, <<VFloat(<<67,64,0,0,0,0,0,0>>), A(<<98>>)>> >>)),
+                 VMap(CanonMap(<< <<VInt(TRUE, <<2,0,0,0,0,0,32>>), A(<<97>>)>>, <<VFloat(<<195,64,0,0,0,0,0,0>>), A(<<98>>)>> >>)),
+                 VMap(CanonMap(<< <<VInt(FALSE, <<1,0,0,0,0,0,0,128>>), A(<<97>>)>>, <<VFloat(<<67,224,0,0,0,0,0,0>>), A(<<98>>)>> >>)),
+                 VMap(CanonMap(<< <<VInt(TRUE, <<1,0,0,0,0,0,0,128>>), A(<<97>>)>>, <<VFloat(<<195,224,0,0,0,0,0,0>>), A(<<98>>)>> >>)),
+                 VMap(CanonMap(<< <<VInt(FALSE, <<255,255,255,255,255,255,255,255>>), A(<<97>>)>>, <<VFloat(<<67,240,0,0,0,0,0,0>>), A(<<98>>)>> >>)),
+                 VMap(CanonMap(<< <<VInt(TRUE, <<255,255,255,255,255,255,255,255>>), A(<<97>>)>>, <<VFloat(<<195,240,0,0,0,0,0,0>>), A(<<98>>)>> >>)),
+                 VMap(CanonMap(<< <<VInt(FALSE, <<1,0,16,99,45,94,199,107,5>>), A(<<97>>)>>, <<VFloat(<<68,21,175,29,120,181,140,64>>), A(<<98>>)>> >>)),
+                 VMap(CanonMap(<< <<VInt(TRUE, <<1,0,16,99,45,94,199,107,5>>), A(<<97>>)>>, <<VFloat(<<196,21,175,29,120,181,140,64>>), A(<<98>>)>> >>)),
+                 VMap(CanonMap(<< <<VInt(FALSE, <<1,0,0,128>>), A(<<97>>)>>, <<VFloat(<<65,224,0,0,0,0,0,0>>), A(<<98>>)>> >>)),
+                 VMap(CanonMap(<< <<VInt(TRUE, <<1,0,0,128>>), A(<<97>>)>>, <<VFloat(<<193,224,0,0,0,0,0,0>>), A(<<98>>)>> >>)) }
 D1 == Leaves
       \cup { VTuple(es) : es \in Seqs(Small, 2) } \cup { VTuple([i \in 1..n |-> SmallInt(i % 256)]) : n \in {255, 256} }
       \cup { VList(es, t) : es \in (Seqs(Small, 2) \ {<<>>}), t \in {VNil, SmallInt(1), A(<<111,107>>), VBin(<<1>>)} }
       \cup { VList([i \in 1..n |-> SmallInt(i % 256)], VNil) : n \in (IF Heavy THEN {300, 65535, 65536} ELSE {300}) }
       \cup { VList([i \in 1..3 |-> VInt(FALSE, <<i, 1>>)], VNil), VList(Rep(SmallInt(97), 30), VNil), VList(Rep(SmallInt(1), 20), VNil),
               VTuple(<<A(<<111,107>>), VBin(Rep(7, 40))>>) }
-      \cup Maps \cup NumKeyMaps
+      \cup Maps \cup NumKeyMaps \cup NearKeyMaps
       \cup { MkFun(fv) : fv \in Seqs(Tiny, 2) }
       \cup { VFun(1, Rep(0, 16), <<0,0,0,0>>, A(<<109>>), VInt(FALSE, <<255,255,255,127>>), VInt(FALSE, <<0,0,0,128>>), Pid1, <<>>) }   \* old_uniq = 2^31
       \cup { VFun(0, Rep(255, 16), <<255,255,255,255>>, A(<<195,169>>), VInt(FALSE, <<255,255,255,255>>), Zero,
